@@ -16,33 +16,45 @@ the unwound loop costs ~0.3 s per element.
 """
 from .core import ob, prop
 
-N = 8  # cap on tot_cnt
 AD = dict(unit="hdiff_array_u.c", file="mfhdf/hdiff/hdiff_array.c", mode="bounded", replace=["print_pos"],
-          unwind=N + 2, cex_unwind=N + 2, flags=["--slice-formula"], objbits=10,
-          trusted=["printf: cbmc built-in (no effect)", "getenv(\"DEBUG\"): NULL or a string; fopen succeeds; fprintf/fclose: ghost counters only"])
+          flags=["--slice-formula"], objbits=12,
+          trusted=["printf: cbmc built-in (no effect)",
+                   "getenv(\"DEBUG\"): NULL or a string; fopen succeeds; fprintf/fclose: no effect on program state"])
 TYPES = [("INT8", "int8"), ("UINT8", "int8"), ("CHAR8", "int8"), ("UCHAR8", "int8"),
          ("INT16", "int16"), ("UINT16", "int16"), ("INT32", "int32"), ("UINT32", "int32")]
-for t, e in TYPES:
-    d = [f"H4V_TYPE=DFNT_{t}", f"H4V_ELT={e}", f"H4V_MAXCNT={N}u"]
-    b = f"tot_cnt <= {N}, rank <= 2, type DFNT_{t}, default options, no fill value"
-    quick = t in ("INT8", "UINT8", "INT16", "UINT16", "INT32", "UINT32")
-    tier = "quick" if quick else "thorough"
-    # flags any change of one element / reflexivity / result <= tot_cnt (contract of array_diff)
-    ob(f"array_diff_{t}", "C19", entry="h_array_diff", enforce="array_diff", bound=b, defines=d, tier=tier, **AD)
-    ob(f"array_diff_same_{t}", "C19", entry="h_array_diff_same", enforce="array_diff", bound=b, defines=d, tier=tier, **AD)
-    # symmetry of "a difference is found" and exact count (harness-level, two calls / reference count)
-    ob(f"array_diff_sym_{t}", "C19", entry="h_array_diff_sym", enforce=None, bound=b, defines=d,
-       tier="quick" if t in ("INT8", "INT16", "INT32") else "thorough", **AD)
-    ob(f"array_diff_count_{t}", "C19", entry="h_array_diff_count", enforce=None, bound=b, defines=d,
-       tier="quick" if t in ("INT8", "INT16", "INT32") else "thorough", **AD)
 
-# print_pos: row-major decomposition of the linear index (rank <= 3, loops unwound)
-ob("print_pos", "C19", unit="hdiff_array_u.c", file="mfhdf/hdiff/hdiff_array.c", entry="h_print_pos", enforce="print_pos",
-   mode="bounded", bound="rank <= 3", unwind=5, cex_unwind=5, defines=["H4V_PPRANK=3"])
+
+def ad(suffix, n, tier_main, tier_laws, types):
+    for t, e in types:
+        d = [f"H4V_TYPE=DFNT_{t}", f"H4V_ELT={e}", f"H4V_MAXCNT={n}u"]
+        kw = dict(AD, bound=f"tot_cnt <= {n}, rank <= 2, type DFNT_{t}, default options, no fill value", defines=d,
+                  unwind=n + 2, cex_unwind=n + 2)
+        main = tier_main if t not in ("CHAR8", "UCHAR8") else "thorough"   # same code path as INT8/UINT8
+        laws = tier_laws if t in ("INT8", "INT16", "INT32") else "thorough"
+        # contract of array_diff: flags any change of one element / reflexivity / result <= tot_cnt
+        ob(f"array_diff_{t}{suffix}", "C19", entry="h_array_diff", enforce="array_diff", tier=main, **kw)
+        ob(f"array_diff_same_{t}{suffix}", "C19", entry="h_array_diff_same", enforce="array_diff", tier=main, **kw)
+        # harness level: symmetry of "a difference is found" (two calls); exact count against a reference count
+        ob(f"array_diff_sym_{t}{suffix}", "C19", entry="h_array_diff_sym", enforce=None, tier=laws, **kw)
+        ob(f"array_diff_count_{t}{suffix}", "C19", entry="h_array_diff_count", enforce=None, tier=laws, **kw)
+
+
+ad("", 16, "quick", "quick", TYPES)                                     # ~10 s each
+ad("_n32", 32, "thorough", "thorough", [TYPES[0], TYPES[4], TYPES[6]])  # ~20-40 s each
+
+# print_pos: row-major decomposition of the linear index.  Strides (acc[]) are constants of the obligation:
+# with symbolic strides the quotient/product pair did not close in 10 min even for rank <= 2.
+PP = dict(unit="hdiff_array_u.c", file="mfhdf/hdiff/hdiff_array.c", entry="h_print_pos", enforce="print_pos", mode="bounded",
+          unwind=5, cex_unwind=5, flags=["--sat-solver", "cadical"], trusted=["printf/fprintf: no effect on program state"])
+ob("print_pos_r2_7", "C19", bound="rank <= 2, strides {7,1}; curr_pos arbitrary", defines=["H4V_PPRANK=2", "H4V_ACC0=1", "H4V_ACC1=7"], **PP)
+ob("print_pos_r3_15_5", "C19", bound="rank <= 3, strides {15,5,1} / {5,1} / {1}; curr_pos arbitrary", tier="thorough",
+   defines=["H4V_PPRANK=3", "H4V_ACC0=15", "H4V_ACC1=5"], **PP)
+ob("print_pos_r3_65536_256", "C19", bound="rank <= 3, strides {65536,256,1} / {256,1} / {1}; curr_pos arbitrary", tier="thorough",
+   defines=["H4V_PPRANK=3", "H4V_ACC0=65536", "H4V_ACC1=256"], **PP)
 
 prop("C19",
      residual="decided: array_diff's verdict for the eight integer number types under hdiff's default options (no -e/-t/-p/-S), "
-              "no fill value, at most 8 elements per call and rank <= 2; print_pos index decomposition for rank <= 3.  NOT decided: "
+              "no fill value, at most 16 (thorough tier: 32) elements per call and rank <= 2; print_pos index decomposition for rank <= 3 and three fixed stride vectors.  NOT decided: "
               "float32/float64 comparison and the tolerance options (-e limit, -t, -p relative), fill-value handling, statistics; "
               "object matching between the two files (hdiff_table/hdiff_list/match), Vdata, GR palette and attribute comparison "
               "(hdiff_vs.c, hdiff_gr.c, hdiff_gattr.c), the hyperslab strip-mining of diff_sds, the exit status of main(); "
